@@ -38,6 +38,7 @@ from __future__ import annotations
 import hashlib
 import json
 import logging
+import math
 import re
 import threading
 import time
@@ -115,6 +116,18 @@ class TokenIdentity:
     principal: str
     token_name: str = ""
     ttl_seconds: int = 300
+
+    def __post_init__(self) -> None:
+        """Refuse a cache lifetime the caller could not act on.
+
+        The response promises a finite, positive ``ttl_seconds``; ``0``, a
+        negative value, ``NaN`` or an infinity would be relayed verbatim (the
+        last two not even as valid JSON).  Failing here surfaces a resolver bug
+        as a 5xx the caller retries instead of an answer it caches.
+        """
+        ttl = self.ttl_seconds
+        if isinstance(ttl, bool) or not isinstance(ttl, (int, float)) or not math.isfinite(ttl) or ttl <= 0:
+            raise ValueError(f"ttl_seconds must be a finite positive number, got {ttl!r}")
 
 
 #: Resolves an opaque credential, returning ``None`` when it does not resolve.
